@@ -746,7 +746,7 @@ def syntactic(repo):
     init = [n for n in fc.body if isinstance(n, ast.FunctionDef) and n.name == "__init__"][0]
     calls = sorted({ast.unparse(n.func) for n in ast.walk(init) if isinstance(n, ast.Call)})
     out.append(("constructor_is_a_sequence_of_set_and_set_group",
-                set(calls) <= {"OrderedDict", "tags.items", "isinstance", "self.set_group", "self.set"}, str(calls)))
+                set(calls) <= {"OrderedDict", "tags.items", "isinstance", "self.set_group", "self.set"}, str(calls), "soft"))
     raw = []
     for fn in [n for n in fc.body if isinstance(n, ast.FunctionDef)]:
         if fn.name in ("__eq__", "query", "__str__"):
@@ -755,7 +755,7 @@ def syntactic(repo):
             if isinstance(n, ast.Call) and ast.unparse(n.func) == "str" and n.args and ast.unparse(n.args[0]) in ("tag", "item", "gtag") \
                     and fn.name != "set":
                 raw.append(f"{fn.name}: {ast.unparse(n)}")
-    out.append(("tag_spellings_become_keys_only_through_tag_key", not raw, "; ".join(raw)))
+    out.append(("tag_spellings_become_keys_only_through_tag_key", not raw, "; ".join(raw), "soft"))
     return out
 
 
@@ -771,11 +771,11 @@ def violates(rp, obs):
 
 WALK = Bounded(
     "operation_sequences_against_reference_model", "c18_walk",
-    {"depth": 2, "walks": 3000, "walk_len": 12}, {"depth": 3, "walks": 20000, "walk_len": 16},
+    {"depth": 2, "walks": 3000, "walk_len": 12}, {"depth": 3, "walks": 250000, "walk_len": 20},
     "the real container against a reference model (ordered map keyed by the canonical tag text), every step compared "
     "(return value / exception class / content in order / group members by identity): all sequences of length 2 "
-    "(thorough: 3) over 4 tag spellings x 3 values x every operation, then 3000 (20000) seeded random sequences of "
-    "length 12 (16) over 13 tag spellings incl. non-integers, 7 values (str, int, float, enum, texts with | and =), "
+    "(thorough: 3) over 4 tag spellings x 3 values x every operation, then 3000 (250000) seeded random sequences of "
+    "length 12 (20) over 13 tag spellings incl. non-integers, 7 values (str, int, float, enum, texts with | and =), "
     "nested containers, dict items, wrong item types, indices -1/0/1/5; at the end equality with a rebuilt copy and "
     "with modified copies, equality with dicts (framing tags ignored, extra tag), query(), pickle round trip")
 
